@@ -9,6 +9,8 @@ open Proto Ex
       `i:f:<rel>:<mode>:<seed>:<len>`         pre-existing file with pattern content
       `i:s:<rel>:<target>`                    pre-existing symbolic link
       `i:h:<rel>:<rel of an existing file>`   pre-existing hard link
+      `w:<n>`                                 write fault: during the extraction no file can grow beyond n bytes (the
+                                              write of a longer payload stops after n bytes with an error)
       `e:<k>:<name>:<mode>:<seed>:<len>:<present>:<link>`   archive entry;
           tar k = r d s l o (other type flag) x (unreadable header); zip k = f d s
           present < len: tar = the stream ends after `present` payload bytes, zip = first payload byte flipped (CRC error);
@@ -121,17 +123,22 @@ def step (_ : Unit) (line : String) : Unit × String :=
       | none => "bad-op"
       | some mk =>
         let zip := fmt == "zip"
-        let rec go (fs : FS) (es : List Entry) : List String → Option (FS × List Entry)
-          | [] => some (fs, es.reverse)
+        let rec go (fs : FS) (es : List Entry) (lim : Option Nat) : List String → Option (FS × List Entry × Option Nat)
+          | [] => some (fs, es.reverse, lim)
           | w :: ws =>
             let f := w.splitOn ":"
             match f with
-            | "i" :: _ => match applyInit fs f with | some fs' => go fs' es ws | none => none
-            | "e" :: _ => match parseEntry zip f with | some e => go fs (e :: es) ws | none => none
+            | "i" :: _ => match applyInit fs f with | some fs' => go fs' es lim ws | none => none
+            | "e" :: _ => match parseEntry zip f with | some e => go fs (e :: es) lim ws | none => none
+            | ["w", n] => match n.toNat? with | some k => go fs es (some k) ws | none => none
             | _ => none
-        match go fs0 [] items with
+        match go fs0 [] none items with
         | none => "bad-op"
-        | some (fs, es) =>
+        | some (fs, es, lim) =>
+          let es := match lim with
+            | none => es
+            | some k => es.map fun e =>
+                if e.kind == .reg && e.data.length > k then { e with data := e.data.take k, short := true } else e
           let r := if zip then zipExtract fs dstRoot mk es else tarExtract fs dstRoot mk es
           (if r.2 then "ok" else "err") ++ (let d := dump r.1; if d.isEmpty then "" else " " ++ d)
     | _ => "bad-op"
